@@ -264,6 +264,8 @@ def smaller(c):
             yield dict(c, existing=c['existing'][:i] + c['existing'][i + 1:])
     if c['n_threads'] > 1:
         yield dict(c, n_threads=1)
+    if c.get('verbose'):
+        yield {k: v for k, v in c.items() if k != 'verbose'}
     if c.get('bom'):
         yield dict(c, bom=False)
     if c['directory'] != 't':
@@ -311,8 +313,9 @@ def python_snippet(c):
             "os.makedirs('work', exist_ok=True); os.chdir('work')\n"
             "import impl_corpus\n"
             "task = json.loads(%r)\n"
-            "print(impl_corpus.op_corpus_create(task))   # builds the tree, calls pyndl.corpus.create_corpus_from_gz(%r, %r, n_threads=%d)\n"
-            % (json.dumps(c, ensure_ascii=False), c['directory'], c['outfile'], c['n_threads']))
+            "print(impl_corpus.op_corpus_create(task))   # builds the tree, calls pyndl.corpus.create_corpus_from_gz(%r, %r, n_threads=%d%s)\n"
+            % (json.dumps(c, ensure_ascii=False), c['directory'], c['outfile'], c['n_threads'],
+               ', verbose=True' if c.get('verbose') else ''))
 
 
 # ---------------------------------------------------------------------------
@@ -419,6 +422,19 @@ def run(rep, pool, driver, tier):
     r = rng('C19')
     n = 900 if tier == 'quick' else 12000
     cs = [dict(c) for c in FIXED] + [gen_case(r, i) for i in range(n)]
+    # X1: `verbose=True` for about a quarter of the calls (own random stream: the cases above stay the
+    # same); the model knows no verbose flag, so files and exceptions must be those of verbose=False.
+    # The progress block (`progress_counter % 1000 == 0`) needs 1000 files: one tree of 1000 entries
+    # (two documents, 998 dangling links, which cost nothing to create or to read).
+    rv = rng('C19/verbose')
+    for c in cs:
+        if rv.random() < 0.25:
+            c['verbose'] = True
+    many = [['f%04d.gz' % k, 'dangling'] for k in range(1000)]
+    many[rv.randrange(1000)][1] = {'doc': [{'w': ['one'], 't': []}]}
+    many[rv.randrange(1000)][1] = {'doc': [{'w': ['two', 'words'], 't': []}]}
+    cs.append({'op': 'corpus_create', 'directory': 't', 'outfile': 'out.txt', 'n_threads': rv.choice([1, 3]), 'existing': [],
+               'dir_exists': True, 'links': [], 'bom': False, 'tree': many, 'verbose': True})
     failures = []
     B = 400
     for lo in range(0, len(cs), B):
@@ -429,6 +445,9 @@ def run(rep, pool, driver, tier):
             rep.case(model_request(c), nontrivial=len(gz) >= 2, stream='create_corpus')
             rep.count('outcome:' + (model.get('raised') or 'Returned'))
             rep.count('n_threads:%d' % c['n_threads'])
+            rep.count('verbose:%s' % bool(c.get('verbose')))
+            if c.get('verbose') and len(gz) >= 1000:
+                rep.count('verbose_with_1000_files(progress block reached)')
             rep.count('gz_files:%s' % ('0' if not gz else '1' if len(gz) == 1 else '2-4' if len(gz) <= 4 else '5+'))
             rep.count('dangling:%s' % ('0' if n_dang == 0 else '1' if n_dang == 1 else '2+'))
             if model.get('not_found_name') and model['not_found_name'] != c['outfile'] + '.not_found':
